@@ -128,7 +128,7 @@ func kopTerm(op *KOp, cas uint64) Term {
 		if cb.Kind == "fail" {
 			cbT = C("WUFail")
 		} else {
-			cbT = C("WUResult", C("mkWu", optStr(cb.Val), xsTerm(cb.Xs), delsTerm(cb.Dels), B(cb.Tomb), optExpTerm(cb.NewExp), macrosTerm(cb.Spec)))
+			cbT = C("WUResult", C("mkWu", optStr(cb.Val), xsTerm(cb.Xs), delsTerm(cb.Dels), B(cb.Tomb), optExpTerm(cb.NewExp), macrosTerm(cb.Spec), B(op.Preserve)))
 		}
 		return C("KWriteUpdateWithXattrs", cbT, macrosTerm(op.Macros))
 	case "WriteSubDoc":
